@@ -263,6 +263,16 @@ func runC12(c *engine.Ctx) {
 			run(level, append(append([]byte(nil), b...), univ.Fill(e, 0)...), src+"/extension")
 		}
 	}
+	// long EAP-AKA' packets from the independent encoder: attribute boundaries on every word offset up to 1100 words,
+	// filler attributes straddling every power-of-two offset (a reader that works through a fixed-size buffer)
+	for total := 11; total <= 1100; total++ {
+		if !c.Mine() {
+			continue
+		}
+		if eb, err := ref.EncodeEAP(akaBoundaryPacket(total)); err == nil {
+			run("eap", eb, fmt.Sprintf("aka-boundary@%d words", total))
+		}
+	}
 	depth := 1
 	if c.Thorough() {
 		depth = 2
